@@ -26,14 +26,28 @@ def build(workdir, tree):
 
 def digest_of(root, tree, workdir, workers, limit):
     """SHA-256 over the complete event log of a fixed slice of the C02 workload."""
-    tasks = profiles.c02(root, "quick", tree)[:limit]
+    # a mixed slice: corpus units, generated units (incl. rich regexes, lifecycle, near-miss programs),
+    # family units with their models, strict-done twins
+    from . import families
+    c02 = profiles.c02(root, "quick", tree)
+    gen = [t for t in c02 if t[3]["label"].startswith("gen:")]
+    c04 = [t for t in profiles.c04(root, "quick", tree) if "nearmiss" in t[3]["label"]]
+    c03 = [t for t in profiles.c03(root, "quick", tree) if "life" in t[3]["label"]]
+    tw = profiles._twin_tasks(root, "quick", tree, profiles.TIER["quick"])
+    k = max(4, limit // 6)
+    tasks = c02[:k] + gen[:k] + c04[:k] + c03[:k] + families.family_tasks("C10", "quick", root)[:k] + \
+        families.family_tasks("C17", "quick", root)[:k] + tw[-k:]
     results = checks.run_pool(tasks, workdir, tree, workers)
     h = hashlib.sha256()
     for r in results:
         st = dict(r.get("stats") or {})
         st.pop("ticks", None)
+        st.pop("guards_total", None)   # number of basic-block edges: depends on the order nmfu emits code in
+        st.pop("guards_hit", None)
+        st.pop("states_cut", None)      # state numbering likewise depends on the compiler's hash seed
+        st.pop("states_seen", None)
         doc = {"label": r["label"], "argv": r["argv"], "status": r["status"], "verdict": r["verdict"],
-               "findings": [(f["oracle"], f["kind"], f["op"], f["detail"], f["ctx"]["script"]) for f in r["findings"]],
+               "findings": [(f["oracle"], f["kind"], f["op"], f["detail"].split(" stall=")[0], f["ctx"]["script"]) for f in r["findings"]],
                "stats": st, "samples": r.get("samples")}
         h.update(json.dumps(doc, sort_keys=True, default=str).encode())
     return h.hexdigest()
@@ -52,7 +66,7 @@ def determinism(workdir, tree, root):
                 env["NMFU_VERIF_REEXEC"] = "1"   # keep the requested hash seed: no re-exec
                 code = ("import sys; sys.path.insert(0, %r); from sim import selftest; import tempfile, shutil; "
                         "wd = tempfile.mkdtemp(prefix='nmfuvd_'); "
-                        "print(selftest.digest_of(%d, %r, wd, %d, 48)); shutil.rmtree(wd)" % (here, seed, tree, workers))
+                        "print(selftest.digest_of(%d, %r, wd, %d, 96)); shutil.rmtree(wd)" % (here, seed, tree, workers))
                 p = subprocess.run([sys.executable, "-c", code], capture_output=True, text=True, env=env, timeout=900)
                 d = p.stdout.strip().splitlines()[-1] if p.stdout.strip() else "ERR:" + p.stderr[-300:]
                 digs.setdefault(seed, {})[(workers, hs)] = d
